@@ -26,8 +26,12 @@ BASE_OPS = ['start', 'stop', 'resume', 'restart', 'split', 'elapsed:N', 'elapsed
 # `exit:T` leaves the context manager with an exception of type T in flight (the with-statement
 # protocol: __exit__(type, value, traceback)); the watch must be stopped whatever the exception
 EXIT_KINDS = ['KeyboardInterrupt', 'SystemExit', 'GeneratorExit', 'ValueError', 'RuntimeError', 'BaseX']
-ALL_OPS = BASE_OPS + ['has_started', 'has_stopped', 'enter', 'exit', 'elapsed:-3', 'elapsed:1000', 'elapsed:-0'] \
+# `elapsedk` / `leftoverk`: the same calls with the optional argument passed BY KEYWORD (the pinned
+# signatures are elapsed(self, maximum=None) and leftover(self, return_none=False))
+ALL_OPS = BASE_OPS + ['has_started', 'has_stopped', 'enter', 'exit', 'elapsed:-3', 'elapsed:1000', 'elapsed:-0',
+                      'elapsedk:N', 'elapsedk:7', 'elapsedk:0', 'leftoverk:0', 'leftoverk:1'] \
     + ['exit:' + k for k in EXIT_KINDS]
+KW_ALIAS = {'elapsedk': 'elapsed', 'leftoverk': 'leftover'}
 
 
 class BaseX(BaseException):
@@ -82,7 +86,11 @@ def call(w, op):
     name, _, arg = op.partition(':')
     if name == 'elapsed':
         return w.elapsed(None if arg == 'N' else (-0.0 if arg == '-0' else int(arg)))
+    if name == 'elapsedk':
+        return w.elapsed(maximum=None if arg == 'N' else int(arg))
     if name == 'leftover':
+        return w.leftover(arg == '1')
+    if name == 'leftoverk':
         return w.leftover(return_none=(arg == '1'))
     if name == 'splits':
         return w.splits
@@ -109,7 +117,8 @@ def run_impl(duration, clock_list, ops):
     timeutils.now = clock
     outs, trace = [], []
     try:
-        w = timeutils.StopWatch(duration)
+        # both call forms of the constructor (pinned signature: StopWatch(duration=None))
+        w = timeutils.StopWatch(duration) if len(ops) % 2 else timeutils.StopWatch(duration=duration)
         view = whitebox.watch_view()
         for op in ops:
             before = view.snapshot(w)
@@ -150,6 +159,8 @@ def run_impl(duration, clock_list, ops):
 
 def case_line(duration, clock_list, ops):
     model_ops = ['exit' if o.startswith('exit:') else ('elapsed:0' if o == 'elapsed:-0' else o) for o in ops]
+    model_ops = [KW_ALIAS[o.partition(':')[0]] + ':' + o.partition(':')[2] if o.partition(':')[0] in KW_ALIAS else o
+                 for o in model_ops]
     return req('run', 'N' if duration is None else duration,
                ','.join(map(str, clock_list)) or '-', ','.join(model_ops) or '-')
 
@@ -210,6 +221,7 @@ def oracle(duration, clock_list, ops):
     stop_at = None
     for k, (op, r, before, after, reads, nreads) in enumerate(trace):
         name = op.partition(':')[0]
+        name = KW_ALIAS.get(name, name)
         state0, state1 = before[0], after[0]
         if isinstance(r, Exception):
             return 'call %d (%s) raised %s' % (k, op, type(r).__name__)
@@ -286,6 +298,82 @@ def oracle(duration, clock_list, ops):
     return None
 
 
+COPY_KINDS = ['copy', 'deepcopy', 'pickle']
+
+
+def clone_watch(w, kind):
+    import copy
+    import pickle
+    if kind == 'copy':
+        return copy.copy(w)
+    if kind == 'deepcopy':
+        return copy.deepcopy(w)
+    return pickle.loads(pickle.dumps(w))
+
+
+def _canon(snap):
+    # Split objects have no __eq__: compare them by value
+    return (snap[0], snap[1], snap[2], tuple((x.elapsed, x.length) for x in snap[3]), snap[4])
+
+
+def _run_ops(w, ops, clock, view, others=()):
+    """apply ops to w; returns (outs, why) where why names an op that changed one of `others`"""
+    from oslo_utils import timeutils
+    outs = []
+    for k, op in enumerate(ops):
+        snap = [_canon(view.snapshot(o)) for o in others]
+        try:
+            r = call(w, op)
+            o = 'self' if r is w else ('split:' + fmt_split(r) if isinstance(r, timeutils.Split) else
+                                        ('splits:' + '|'.join(fmt_split(x) for x in r) if isinstance(r, tuple)
+                                         else repr(r)))
+        except RuntimeError:
+            o = 'RuntimeError'
+        except Exception as e:
+            o = type(e).__name__
+        outs.append(o)
+        for j, (o2, s0) in enumerate(zip(others, snap)):
+            if _canon(view.snapshot(o2)) != s0:
+                return outs, 'call %d (%s) on one watch changed ANOTHER watch (%r -> %r)' % (
+                    k, op, s0[:4], _canon(view.snapshot(o2))[:4])
+    return outs, None
+
+
+def copy_oracle(duration, clock_list, ops_a, kind, ops_b):
+    """A watch copied half-way (copy / deepcopy / pickle round trip): the copy continues exactly like a
+    watch with the same history, and nothing done to the copy shows on the original (and vice versa)."""
+    from oslo_utils import timeutils
+    saved = timeutils.now
+    view = whitebox.watch_view()
+    try:
+        # reference: one watch, the whole sequence
+        clock = Clock(clock_list)
+        timeutils.now = clock
+        ref = timeutils.StopWatch(duration)
+        outs_ref, _ = _run_ops(ref, list(ops_a) + list(ops_b), clock, view)
+        # original + copy
+        clock = Clock(clock_list)
+        timeutils.now = clock
+        a = timeutils.StopWatch(duration)
+        outs_a, _ = _run_ops(a, ops_a, clock, view)
+        b = clone_watch(a, kind)
+        if _canon(view.snapshot(b)) != _canon(view.snapshot(a)):
+            return '%s of a used watch differs from it: %r vs %r' % (kind, _canon(view.snapshot(b))[:4], _canon(view.snapshot(a))[:4])
+        outs_b, why = _run_ops(b, ops_b, clock, view, others=[a])
+        if why:
+            return why + ' [the other watch is the original, this one its %s]' % kind
+        if outs_a + outs_b != outs_ref:
+            return 'the %s continued differently from a watch with the same history: %r vs %r' % (
+                kind, outs_b, outs_ref[len(outs_a):])
+        # and the original is not affected by what happened to the copy: continue it, copy must stay put
+        _, why = _run_ops(a, ['split', 'restart', 'split', 'stop'], clock, view, others=[b])
+        if why:
+            return why + ' [the other watch is the %s, this one the original]' % kind
+        return None
+    finally:
+        timeutils.now = saved
+
+
 def search(ctx, seeds, full=False):
     rng = ctx.rng
     fails = []
@@ -296,6 +384,22 @@ def search(ctx, seeds, full=False):
         ops = [rng.choice(ALL_OPS) for _ in range(ln)]
         pats = clock_patterns(2 * ln + 2, rng)
         todo.append((rng.choice(DURATIONS + [rng.randrange(0, 60)]), pats[rng.choice(sorted(pats))], ops))
+    # copies of a half-used watch (copy / deepcopy / pickle): independence and faithful continuation
+    ncopy = (3000 if full else 600) if ctx.quick else 30000
+    for _ in range(ncopy):
+        la, lb = rng.randrange(0, 6), rng.randrange(1, 7)
+        ops_a = [rng.choice(BASE_OPS) for _ in range(la)]
+        ops_b = [rng.choice(BASE_OPS) for _ in range(lb)]
+        pats = clock_patterns(2 * (la + lb) + 12, rng)
+        d, clk, kind = rng.choice(DURATIONS), pats[rng.choice(sorted(pats))], rng.choice(COPY_KINDS)
+        ctx.evaluations += 1
+        ctx.count('search/copy/' + kind)
+        why = copy_oracle(d, clk, ops_a, kind, ops_b)
+        if why and not any(f.detail.get('kind') == 'copy' for f in fails):
+            sa = common.shrink_list(ops_a, lambda sub: copy_oracle(d, clk, sub, kind, ops_b) is not None)
+            sb = common.shrink_list(ops_b, lambda sub: copy_oracle(d, clk, sa, kind, sub) is not None)
+            fails.append(Failure({'duration': d, 'clock': clk, 'ops': sa, 'copy': kind, 'ops_copy': sb},
+                                 {'kind': 'copy', 'what': copy_oracle(d, clk, sa, kind, sb)}))
     for d, clk, ops in todo:
         ctx.evaluations += 1
         why = oracle(d, clk, ops)
@@ -317,6 +421,11 @@ def replay(ctx, payload):
         print(payload.get('no_longer_checks'))
         return 0
     d, clk, ops = case['duration'], case['clock'], case['ops']
+    if case.get('copy'):
+        why = copy_oracle(d, clk, ops, case['copy'], case['ops_copy'])
+        print('watch after %r, then %s, then on the copy %r' % (ops, case['copy'], case['ops_copy']))
+        print('oracle:', why or 'the property holds on this case')
+        return 1 if why else 0
     outs, st, _ = run_impl(d, clk, ops)
     print('implementation:', ';'.join(outs), st)
     print('model         :', ctx.driver.ask(case_line(d, clk, ops)))
